@@ -107,7 +107,14 @@ class TrampHarness(VtsHarness):
         if isinstance(fn, Closure) and fn.qualname == "Trampoline._run" and self.stub_run:
             self.w.log.append(("_run", dict(self.w.depth), self.obj.fields.get("_idle")))
             if it.ctx.choose(2, "_run raises") == 1:
-                raise PyExc(SV(it.ctx.fresh("run_exc", "val").t, "val", tag="exc"))
+                self.run_exc = SV(it.ctx.fresh("run_exc", "val").t, "val", tag="exc")
+                raise PyExc(self.run_exc)
+            # contract of _run (proved on the loop below): it returns normally only from the critical section that found the queue
+            # empty and made the trampoline idle.  From that moment another thread may be the runner: the flag is arbitrary, and
+            # whoever writes it (or the queue) now would be writing under that other runner's feet
+            self.idle_after_run = it.ctx.fresh("idle_after_run", "bool")
+            self.obj.fields["_idle"] = self.idle_after_run
+            self.w.log.append(("_run-returned",))
             return None
         return super().hook(it, f, args, kwargs)
 
@@ -129,6 +136,12 @@ class TrampHarness(VtsHarness):
                          "_condition": Opaque("condition", "tramp._condition")})
         it.loop_contracts = {("Trampoline._run", 0): {"name": "_run"}}
         it.on_loop = self.on_loop
+
+        def on_write(it_, obj, name, old_, new_):
+            if obj is o and name == "_idle":
+                w.log.append(("idle-written", new_, dict(w.depth)))
+            obj.fields[name] = new_
+        it.attr_write_hook = on_write
         return it
 
     def pq_call(self, it, q, method, args):
@@ -168,8 +181,16 @@ class TrampHarness(VtsHarness):
                 i_enq = next(i for i, ev in enumerate(w.log) if ev[0] == "enqueue")
                 i_run = next(i for i, ev in enumerate(w.log) if ev[0] == "_run")
                 self.rec(ctx, uid + "/item-enqueued-before-the-run-loop-starts", i_enq < i_run)
-            self.rec(ctx, uid + "/ends-idle-with-an-empty-queue-whatever-the-run-loop-did",
-                     o.fields.get("_idle") is True and any(ev[0] == "clear" for ev in w.log))
+            if raised is None and any(ev[0] == "_run-returned" for ev in w.log):
+                i_ret = next(i for i, ev in enumerate(w.log) if ev[0] == "_run-returned")
+                later = [ev[0] for ev in w.log[i_ret + 1:] if ev[0] in ("clear", "enqueue", "dequeue", "notify", "wait", "action", "idle-written")]
+                self.rec(ctx, uid + "/once-the-run-loop-went-idle-this-thread-touches-the-trampoline-no-more", not later,
+                         detail=f"after _run returned: {later} - another thread may have become the runner in between (its queue would be "
+                                f"cleared / it would be marked idle while its action is running: nested runs)")
+            else:
+                self.rec(ctx, uid + "/the-run-loop-raised/ends-idle-with-an-empty-queue",
+                         o.fields.get("_idle") is True and any(ev[0] == "clear" for ev in w.log))
+                self.rec(ctx, uid + "/the-run-loop-raised/the-same-exception-propagates", raised is getattr(self, "run_exc", None))
         else:
             self.rec(ctx, uid + "/does-not-enter-the-run-loop", not runs and raised is None)
             self.rec(ctx, uid + "/stays-busy", o.fields.get("_idle") is False)
@@ -190,7 +211,8 @@ class TrampHarness(VtsHarness):
         except Deadlock as d:
             self.fail(ctx, f"{TFILE}::Trampoline._run/no-self-deadlock", f"acquires the non-reentrant {d} while holding it")
         except PyExc:
-            pass  # an action raised: propagates to run(), whose finally clause is proved above
+            # an action raised: propagates to run(), whose handler is proved above; the trampoline is still marked busy
+            self.rec(ctx, f"{TFILE}::Trampoline._run/an-action-raised/still-marked-busy-when-the-exception-leaves", self.obj.fields.get("_idle") is False)
 
     def on_loop(self, it, st, env, key, lc, iterable=None):
         ctx = it.ctx
@@ -239,7 +261,14 @@ class TrampHarness(VtsHarness):
             # the flag as it was when invoke happened: flags are havocked AFTER each action, so the value recorded in
             # the path condition before the first action is the one the code must have tested
             pass
+        # `_idle` is False exactly while a thread is inside `_run`: the loop never gives the runner role up itself - run()'s epilogue
+        # does, in the same critical section that clears the queue.  (Going idle earlier lets another thread become the runner while
+        # this one's epilogue is still to come: it would mark the trampoline idle under the new runner's running action - nested runs.)
         if left:
+            self.rec(ctx, uid + "/loop/exit/goes-idle-in-the-critical-section-that-found-the-queue-empty", self.obj.fields.get("_idle") is True
+                     and log and log[-1][0] == "idle-written" and log[-1][2].get("tramp._lock", 0) == 1,
+                     detail="an item another thread enqueues after that section finds the trampoline idle and runs on its own thread; going idle "
+                            "later (outside that section) loses it")
             self.rec(ctx, uid + "/loop/exit/only-with-an-empty-queue", z3.Length(self.q.attrs["view"]) == 0)
             self.rec(ctx, uid + "/loop/exit/lock-free", all(d == 0 for d in w.depth.values()))
             raise PathEnd()
@@ -247,6 +276,8 @@ class TrampHarness(VtsHarness):
             self.rec(ctx, uid + "/iteration/waits-holding-the-lock", ev[2].get("tramp._lock", 0) == 1)
             secs = ev[1]
             self.rec(ctx, uid + "/iteration/waits-only-for-a-positive-time", it.to_int(secs) > 0 if secs is not None else False)
+        self.rec(ctx, uid + "/iteration/stays-the-runner-while-it-goes-round", self.obj.fields.get("_idle") is False
+                 and not [ev for ev in log if ev[0] == "idle-written"], detail=f"_idle = {self.obj.fields.get('_idle')!r} inside _run")
         self.rec(ctx, uid + "/iteration/lock-free-at-loop-head", all(d == 0 for d in w.depth.values()))
         e = env.lookup_env("ready")
         ready = e.vars["ready"] if e is not None else None
@@ -470,7 +501,10 @@ MUTANTS = {
                                "            with self._lock:\n                while len(ready) > 0:\n                    item = ready.popleft()\n                    if not item.is_cancelled():\n                        item.invoke()"),
     "busy run() enters the loop too": ("                self._condition.notify()\n                return", "                self._condition.notify()"),
     "idle flag not restored": ("            with self._lock:\n                self._idle = True\n                self._queue.clear()", "            with self._lock:\n                self._queue.clear()"),
-    "leaves the loop with items queued": ("                if len(self._queue) == 0:\n                    break", "                if len(self._queue) <= 1:\n                    break"),
+    "leaves the loop with items queued": ("                if len(self._queue) == 0:\n", "                if len(self._queue) <= 1:\n"),
+    "epilogue runs after a normal end too (lost / nested actions of another thread)": ("        except BaseException:\n            with self._lock:\n                self._idle = True\n                self._queue.clear()\n            raise\n",
+                                                                                      "        finally:\n            with self._lock:\n                self._idle = True\n                self._queue.clear()\n"),
+    "goes idle outside the emptiness check": ("                    self._idle = True\n                    break", "                    break"),
     "item not enqueued when busy": ("        with self._lock:\n            self._queue.enqueue(item)\n            if self._idle:\n                self._idle = False",
                                     "        with self._lock:\n            if self._idle:\n                self._queue.enqueue(item)\n                self._idle = False"),
 }
